@@ -31,6 +31,17 @@ impl VComp {
         ensures r == self.names().contains(p.text())
     { unimplemented!() }
 
+    // `create_new_stream`: as create_stream, but refuses a name that already exists
+    #[verifier::external_body]
+    pub fn create_new_stream<P: VPath>(&mut self, p: P) -> (r: std::io::Result<VStream>)
+        ensures
+            r is Ok ==> !old(self).names().contains(p.text())
+                && final(self).log() == old(self).log().push((p.text(), r->Ok_0.sid()))
+                && r->Ok_0.sid() == old(self).log().len() && r->Ok_0.clean() && r->Ok_0.fresh()
+                && final(self).names() == old(self).names().insert(p.text()),
+            r is Err ==> final(self).log() == old(self).log(),
+    { unimplemented!() }
+
     // opening an existing stream changes nothing in the directory
     #[verifier::external_body]
     pub fn open_stream<P: VPath>(&mut self, p: P) -> (r: std::io::Result<VStream>)
